@@ -62,7 +62,7 @@ PROPS = {
     },
     "C06": {
         "title": "Clause selection returns exactly the clauses whose heads unify",
-        "v_units": ["indexkey"], "s_checks": ["switch_routes", "lookahead"],
+        "v_units": ["indexkey", "indexmerge"], "s_checks": ["switch_routes", "lookahead", "dynamic_dead_end"],
         "k_groups": [],
         "replay": "index",
         "level": "proof",
